@@ -57,7 +57,7 @@ def ev(kind, **kw):
     with LOCK:
         kw["seq"] = len(LOG)
         kw["kind"] = kind
-        kw["thread"] = threading.get_ident()
+        kw["thread"] = kw.pop("thread_override", None) or threading.get_ident()
         LOG.append(kw)
         return kw["seq"]
 
@@ -173,11 +173,30 @@ class Exec:
         return False
 
 
+EPOCH_BY_THREAD: dict = {}  # thread ident -> number of client operations started by that thread
+SCHED_POOL_BY_THREAD: dict = {}  # scheduler thread ident -> the pool of its current execution (used when a pool is re-used)
+
+
+def new_epoch():
+    me = threading.get_ident()
+    EPOCH_BY_THREAD[me] = EPOCH_BY_THREAD.get(me, 0) + 1
+
+
 def cur_token():
     tok = CTX.get()
+    if tok is not None and tok in _SUPERSEDED:
+        tok = _SUPERSEDED[tok]._twz_tok
     if tok is None:
-        tok = getattr(TLS, "token", None)
+        pool = getattr(TLS, "pool", None)
+        if pool is None:
+            pool = SCHED_POOL_BY_THREAD.get(threading.get_ident())
+            if pool is not None and not getattr(pool, "_twz_reused", False):
+                pool = None
+        tok = pool._twz_tok if pool is not None else None
     return tok
+
+
+_SUPERSEDED: dict = {}  # old token -> pool (a pool that is re-used by a later client operation gets a fresh token)
 
 
 def cur_exec():
@@ -276,15 +295,43 @@ class Pool(_RealPool):
         REACH["POOL_NEW"] += 1
         ev("POOL_NEW", token=tok, max_workers=max_workers)
 
+        pool = self
+        self._twz_epoch = (threading.get_ident(), EPOCH_BY_THREAD.get(threading.get_ident(), 0))
+        self._twz_max_workers = max_workers
+        SCHED_POOL_BY_THREAD[threading.get_ident()] = self
+
         def init():
-            TLS.token = tok
-            ev("WORKER", token=tok)
+            TLS.pool = pool
+            ev("WORKER", token=pool._twz_tok)
             if initializer is not None:
                 initializer(*initargs)
 
         super().__init__(max_workers, thread_name_prefix or "twz%d" % tok, init)
 
+    def _twz_refresh_if_reused(self):
+        """A scheduler that keeps its pool alive between client operations: every operation is still one execution."""
+        me = threading.get_ident()
+        cur = (me, EPOCH_BY_THREAD.get(me, 0))
+        if cur == self._twz_epoch or me not in EPOCH_BY_THREAD:
+            return
+        old = EXECS.get(self._twz_tok)
+        if old is not None:
+            old.close()
+        with LOCK:
+            tok = next(_ids)
+        _SUPERSEDED[self._twz_tok] = self
+        self._twz_tok = tok
+        self._twz_epoch = cur
+        self._twz_reused = True
+        EXECS[tok] = Exec(tok, self._twz_max_workers)
+        SCHED_POOL_BY_THREAD[me] = self
+        REACH["POOL_REUSED"] += 1
+        ev("POOL_NEW", token=tok, max_workers=self._twz_max_workers, reused=True)
+        for t in list(self._threads):
+            ev("WORKER", token=tok, worker=t.ident, thread_override=t.ident)
+
     def submit(self, fn, /, *a, **k):
+        self._twz_refresh_if_reused()
         ex = EXECS.get(self._twz_tok)
         if ex is None:
             return super().submit(fn, *a, **k)
